@@ -74,7 +74,7 @@ func toScalar(b []byte) *goldilocks.Scalar {
 
 func TestVerifGoldilocksScalar(t *testing.T) {
 	lib.Mandatory("scalar:reduced-operands", "scalar:unreduced-operands", "scalar:frombytes-114", "scalar:frombytes-57", "scalar:iszero-true", "scalar:iszero-multiple-of-order", "scalar:add-carry-out", "scalar:sub-borrow")
-	n := lib.Scale(30000, 1500000)
+	n := lib.Scale(30000, 1000000)
 	two448 := new(big.Int).Lsh(big.NewInt(1), 448)
 	lib.Par(n, func(i int) {
 		r := lib.NewRng("c05/gscalar", i)
@@ -235,7 +235,7 @@ func gReducedEdge(r *lib.Rng) *big.Int {
 func TestVerifGoldilocksMult(t *testing.T) {
 	lib.Mandatory("gmult:base", "gmult:combined", "gmult:combined-identity-point", "gmult:scalar-zero", "gmult:scalar-order-minus-1")
 	c := ref.C448
-	n := lib.Scale(240, 8000)
+	n := lib.Scale(240, 4000)
 	enc := func(p *goldilocks.Point) []byte {
 		out := make([]byte, 57)
 		if err := p.ToBytes(out); err != nil {
